@@ -208,6 +208,7 @@ type clRun struct {
 	lastList             []types.Replica
 	removedAt            map[string]time.Duration // address -> time it was last seen leaving the list
 	abortedWO            map[string]bool          // address -> its last rebuild ended without a promotion (left the list while WO)
+	electionTies         []map[string]bool        // per cold-start election: who had registered with the elected replica's revision count
 	electedAddrs         []string                 // who each cold-start election picked (index = election number - 1)
 	halfRebuiltElections []int                    // cold-start election numbers that picked such a replica (D25)
 	reverts              []*revertRec             // successful volume reverts (for elections of replicas that missed them)
@@ -1620,12 +1621,24 @@ func (cr *clRun) electedCountingFailedWrite(s int64) (*ioOp, *ioOp, string) {
 					return w, f, el
 				}
 			}
+			// general form: a holder of W had registered with the same revision count as the elected
+			// non-holder - however the counters came to be equal, the election could not tell them apart
+			if e < len(cr.electionTies) {
+				for h := range cr.electionTies[e] {
+					if w.applied[h] {
+						return w, nil, el
+					}
+				}
+			}
 		}
 	}
 	return nil, nil, ""
 }
 
 func (cr *clRun) d31Note(w, f *ioOp, el string) string {
+	if f == nil {
+		return fmt.Sprintf(" [write %d was acknowledged; a later cold-start election picked %s, which does not hold it, while a replica that holds it had registered with the SAME revision count]", w.idx, el)
+	}
 	return fmt.Sprintf(" [write %d was acknowledged; a later cold-start election picked %s, which does not hold it but had applied write %d, which failed towards the initiator, and counted it]", w.idx, el, f.idx)
 }
 
